@@ -15,7 +15,7 @@ ASSUMPTIONS = [
     "'first unevaluated leaf in top-down order' is demanded with respect to depth (no unevaluated leaf at a strictly shallower depth)",
     "DOO: default delta on the concrete box [0,1]^d (delta(h) is then a concrete number), user-supplied delta(h)=0.5^h on a symbolic box",
 ]
-T_OF = {"SOO": (7, 10), "StoSOO": (8, 11), "DOO": (7, 9)}
+T_OF = {"SOO": (7, 13), "StoSOO": (8, 14), "DOO": (7, 11)}
 
 
 def bounds(tier):
